@@ -158,6 +158,110 @@ func init() {
 		}
 		l.p("/-- `newCursor` initialises its mixers with `model.GetEarliest` -/")
 		l.p("def newCursorUsesGetEarliest : Bool := %s", leanBool(usesGE))
+
+		// 6. newCursor sorts the tag lines before it fills the slice the reduction works on:
+		//    keys collected by ranging over the map `srcs` into a slice S, `sort.Slice(S, func(i, j) bool { return S[i] < S[j] })`
+		//    (or sort.Strings-like call on S), and `mxs[i] = …` assigned inside `for i, … := range S` (not inside a range over the map)
+		sorts := false
+		if nc := funcDecl(parseFile("pkg/cursor/cursor.go"), "", "newCursor"); nc != nil {
+			sortedSlice := ""
+			sortPos := token.NoPos
+			ast.Inspect(nc.Body, func(n ast.Node) bool {
+				c, ok := n.(*ast.CallExpr)
+				if !ok {
+					return true
+				}
+				se, ok := c.Fun.(*ast.SelectorExpr)
+				if !ok {
+					return true
+				}
+				pk, _ := se.X.(*ast.Ident)
+				if pk == nil || pk.Name != "sort" || se.Sel.Name != "Slice" || len(c.Args) != 2 {
+					return true
+				}
+				id, _ := c.Args[0].(*ast.Ident)
+				fl, _ := c.Args[1].(*ast.FuncLit)
+				if id == nil || fl == nil || len(fl.Body.List) != 1 {
+					return true
+				}
+				rs, _ := fl.Body.List[0].(*ast.ReturnStmt)
+				if rs == nil || len(rs.Results) != 1 {
+					return true
+				}
+				be, _ := rs.Results[0].(*ast.BinaryExpr)
+				if be == nil || be.Op != token.LSS {
+					return true
+				}
+				ix, _ := be.X.(*ast.IndexExpr)
+				iy, _ := be.Y.(*ast.IndexExpr)
+				if ix == nil || iy == nil {
+					return true
+				}
+				ax, _ := ix.X.(*ast.Ident)
+				ay, _ := iy.X.(*ast.Ident)
+				ii, _ := ix.Index.(*ast.Ident)
+				jj, _ := iy.Index.(*ast.Ident)
+				if ax == nil || ay == nil || ii == nil || jj == nil || ax.Name != id.Name || ay.Name != id.Name {
+					return true
+				}
+				// the less function's parameters, in order
+				var params []string
+				for _, f := range fl.Type.Params.List {
+					for _, nm := range f.Names {
+						params = append(params, nm.Name)
+					}
+				}
+				if len(params) == 2 && ii.Name == params[0] && jj.Name == params[1] {
+					sortedSlice = id.Name
+					sortPos = c.Pos()
+				}
+				return true
+			})
+			if sortedSlice != "" {
+				// the slice is filled from the keys of srcs before the sort, and mxs is filled by ranging over it after the sort
+				filled, consumed := false, false
+				ast.Inspect(nc.Body, func(n ast.Node) bool {
+					rs, ok := n.(*ast.RangeStmt)
+					if !ok {
+						return true
+					}
+					over, _ := rs.X.(*ast.Ident)
+					if over == nil {
+						return true
+					}
+					if over.Name == "srcs" && rs.Pos() < sortPos {
+						ast.Inspect(rs.Body, func(m ast.Node) bool {
+							if as, ok := m.(*ast.AssignStmt); ok && len(as.Lhs) == 1 {
+								if l, ok := as.Lhs[0].(*ast.Ident); ok && l.Name == sortedSlice {
+									filled = true
+								}
+							}
+							return true
+						})
+					}
+					if over.Name == sortedSlice && rs.Pos() > sortPos {
+						key, _ := rs.Key.(*ast.Ident)
+						ast.Inspect(rs.Body, func(m ast.Node) bool {
+							if as, ok := m.(*ast.AssignStmt); ok && len(as.Lhs) == 1 {
+								if ie, ok := as.Lhs[0].(*ast.IndexExpr); ok {
+									arr, _ := ie.X.(*ast.Ident)
+									idx, _ := ie.Index.(*ast.Ident)
+									if arr != nil && idx != nil && key != nil && arr.Name == "mxs" && idx.Name == key.Name {
+										consumed = true
+									}
+								}
+							}
+							return true
+						})
+					}
+					return true
+				})
+				sorts = filled && consumed
+			}
+		}
+		l.p("/-- `newCursor` collects the tag lines of the map `srcs`, sorts them ascending (`sort.Slice` with `<` on `tag.Line`) and")
+		l.p("fills the slice the reduction works on in that order -/")
+		l.p("def newCursorSortsSources : Bool := %s", leanBool(sorts))
 		l.write()
 	}
 }
